@@ -116,6 +116,7 @@ func c11(r *core.Run) {
 	r.Rule("K2", "cache coherence: a value cached in the transaction object is either never persistently written (all writers have value receivers) or every mutation method refreshes it; otherwise reads inside a write transaction would not see its own writes", 1)
 	r.Rule("E1", "sentinels: Create can return store.ErrDuplicate on the exists edge; Update/Delete/Value can return the not-found sentinel; no method returns the raw badger.ErrKeyNotFound", 8)
 	r.Rule("E3", "existence is read, not assumed (badgerstore): in the transaction bodies of Update and Delete every database write is preceded on all paths by a read of the key (a call reaching Txn.Get) or by the edge on which the transaction's cached value is non-nil; the database itself accepts writes and deletes of missing keys", 2)
+	r.Rule("E4", "per-id operations are exact (badgerstore): no method of the read / write transaction (nor its private helpers and closures) opens an iterator or applies a prefix test; existence and values come from Txn.Get on the transaction's own key", 6)
 	r.Rule("E2", "empty id: Create tests the transaction id against \"\" before any write and on that edge returns an error or installs a generated id", 2)
 	r.Rule("C1", "change callbacks: on every nil return of Create/Update/Delete exactly one change fan-out ran, after the mutation succeeded (err==nil edge), with (txn id, before value read in the same transaction or nil, new value or nil); on every non-nil return none ran", 12)
 	r.Rule("C2", "veto and type: the dynamic type check dominates the database transaction; the before-change fan-out runs inside the update closure before the write and its error aborts the closure", 5)
@@ -387,6 +388,34 @@ func c11(r *core.Run) {
 					r.Check(!st.Empty() && st.Only(1), "E3", core.FuncName(body), "existence-known-before:"+w.Common().StaticCallee().Name(), p.InstrPos(w), "every path to the write read the key (or holds the cached value)", "a path reaches the database write without having read the key: BadgerDB's Set / Delete succeed on a missing key, so "+n+" on an id that holds no value reports success instead of the not-found error")
 				}
 			}
+		}
+	}
+
+	// ---- E4 (badgerstore) ----------------------------------------------------
+	// per-id operations answer from an exact-key read: a prefix scan (iterator Seek +
+	// ValidForPrefix) also matches every longer id that starts with this one
+	{
+		rel := "store/badgerstore"
+		n := 0
+		for _, tn := range []string{"readTxn", "writeTxn"} {
+			for _, m := range methodsOf(p, rel, tn) {
+				if m.Parent() != nil {
+					continue
+				}
+				n++
+				bad := ""
+				for _, f2 := range p.Scope(m) {
+					for _, c := range core.Calls(f2) {
+						if isBadgerCall(c, "Txn", "NewIterator") || isBadgerCall(c, "Iterator", "ValidForPrefix") || isBadgerCall(c, "Iterator", "Seek") {
+							bad = c.Common().StaticCallee().Name() + " at " + p.InstrPos(c)
+						}
+					}
+				}
+				r.Check(bad == "", "E4", core.FuncName(m), "exact-key-read-only", p.Pos(m.Pos()), "no iterator / prefix test in a per-id operation", "a per-id operation of the store uses an iterator ("+bad+"): a prefix test also matches longer ids that start with this id, so the answer for one id depends on which other ids are stored")
+			}
+		}
+		if n == 0 {
+			r.Unres("E4", "badgerstore transaction methods", "none found")
 		}
 	}
 
